@@ -53,6 +53,15 @@ PROPS = {
         trusted_base=[KERNEL],
         assumptions=["atime is not part of the property (reading a file may update it on a non-noatime mount)"],
     ),
+    "C03": dict(
+        level="proof",
+        lean=["Rio.Props.C03"],
+        engines=["fetch"],
+        classes=["fetch-panic", "fetch-refused-valid", "fetch-accepted-altered", "fetch-wrong-error", "fetch-shelved-altered", "cache-temp-left", "mirror-committed-altered", "mirror-accepted-altered", "mirror-staging-left"],
+        rule="fetch: generated filesets packed by rio into file:// / ca+file://, then the stored ware is altered in the decompressed stream (bit flips at random offsets, truncation of the tar and of the gzip stream, entry dropped / added / re-described directory entry / attribute or content modified, substitution by another valid ware) or only re-encoded (recompressed, stored plain, padded, entries reordered); real Unpack in a random placement mode and real Mirror into a second warehouse; the harness decodes the altered bytes with archive/tar and hands the header list to the Lean model (wrapUnpack / mirror), outcomes compared; oracle: altered => refused (hash-mismatch when it parses), no shelf, no temp dir, no object and no staging file at the mirror target; re-encoded => accepted. Distinct = distinct (fileset, alteration) cases.",
+        trusted_base=[SHA, CODEC],
+        assumptions=["requested wareIDs are base58 strings (the property's quantifier)"],
+    ),
     "C12": dict(
         level="proof",
         lean=["Rio.Props.C12"],
